@@ -40,6 +40,17 @@ func NewB() string    { return "" }
 func NewC() C         { return C{} }
 func NewE() (int, error) { return 1, nil }
 func mk() *S          { return nil }
+
+func dupFn(a func(x int) int, b func(y int) int) int { return a(1) + b(2) }
+func dupAny(a any, b interface{}) int               { return 0 }
+func dupAlias(a S, b AS) int                        { return 0 }
+func dupVar(a []int, b ...int) int                  { return 0 }
+func noDup(a func(x int) int, b func(y int) string) int { return 0 }
+func NewFn1() func(int) int                         { return nil }
+func NewFn2() func(int) string                      { return nil }
+func NewAny() any                                   { return nil }
+func NewS() S                                       { return S{} }
+func NewInts() []int                                { return nil }
 func mk1(x int) *S    { return nil }
 
 var SetV = wire.NewSet(NewA)
@@ -114,6 +125,8 @@ type T struct{ N int }
 
 func N1() T { return T{N: 1} }
 func N2() T { return T{N: 2} }
+type Two struct{ A, B uint16 }
+
 func Exit(code int) {}
 func Three() (int, int, int) { return 1, 2, 3 }
 
@@ -142,8 +155,8 @@ func Inject(%s) %s {
 def forms():
     F = []
 
-    def add(name, args, res="int", expect="diag", body=None, dot=False, key=None, params=""):
-        F.append({"name": name, "args": args, "res": res, "expect": expect, "body": body, "dot": dot, "key": key or name, "params": params})
+    def add(name, args, res="int", expect="diag", body=None, dot=False, key=None, params="", dotdep=False):
+        F.append({"name": name, "args": args, "res": res, "expect": expect, "body": body, "dot": dot, "key": key or name, "params": params, "dotdep": dotdep})
     # ---- wire.Build / NewSet arguments
     add("provider", "NewA", expect="ok")
     add("paren-provider", "(NewA)", expect="ok")
@@ -267,6 +280,18 @@ def forms():
     add("dep-bad-set", "dep.BadSet")
     add("dep-bad-set-nested", "wire.NewSet(NewB, wire.NewSet(dep.BadSet))")
     add("dep-good-set", "dep.GoodSet", res="dep.T", expect="ok")
+    add("dep-struct-dup-fields", 'wire.Struct(new(dep.Two), "*")', res="dep.Two")
+    add("dep-struct-literal-dup-fields", "dep.Two{}", res="dep.Two")
+    # ... the same reached through a dot import (the reference is a bare identifier)
+    add("dep-dot-func-not-provider", "NewA, Exit", dotdep=True)
+    add("dep-dot-bad-set", "BadSet", dotdep=True)
+    add("dep-dot-good-set", "GoodSet", res="T", expect="ok", dotdep=True)
+    # ---- provider functions with two parameters of one type written in two ways
+    add("dup-param-func-types", "dupFn, NewFn1")
+    add("dup-param-any", "dupAny, NewAny")
+    add("dup-param-alias", "dupAlias, NewS")
+    add("dup-param-variadic", "dupVar, NewInts")
+    add("dup-param-none", "noDup, NewFn1, NewFn2", expect="ok")
     # ---- injector shapes
     add("injector-extra-stmt", None, body="_ = 1\n\tpanic(wire.Build(NewA))", key="invalid-injector:diagnostic-without-position")
     add("injector-two-builds", None, body="wire.Build(NewA)\n\twire.Build(NewA)\n\treturn 0", key="invalid-injector:diagnostic-without-position")
@@ -343,7 +368,9 @@ def render(f):
     if f["name"].startswith("result-"):
         res = "(%s, error)" % f["res"]
     imp = '. "github.com/google/wire"\n\t' if f["dot"] else ""
-    if "dep." in body or "dep." in res:
+    if f.get("dotdep"):
+        imp += '. "example.com/depmod/dep"\n\t'
+    elif "dep." in body or "dep." in res:
         imp += '"example.com/depmod/dep"\n\t'
     inj = INJ % (imp, f.get("params", ""), res, body)
     if f["dot"]:
@@ -361,6 +388,8 @@ def eng_forms(pid, tier, wd, known, replay=None):
         fs = [f for f in fs if f["name"].startswith("bind")]
     elif pid == "C06":
         fs = [f for f in fs if f["name"].startswith(("bind", "struct", "fields"))]
+    elif pid == "C09":
+        fs = [f for f in fs if f["name"].startswith("dup-param")]
     elif pid == "C12":
         fs = [f for f in fs if f["name"].startswith(("struct", "fields"))]
     if pid in ("C20", "C01"):
